@@ -223,6 +223,16 @@ def _update_station_prices(
                 return updated_sim
 
 
+def _within_region(geoid: str, region: str, region_res: int) -> bool:
+    """
+    tests whether a geoid lies inside a (coarser or equal) h3 region
+    """
+    geoid_res = h3.h3_get_resolution(geoid)
+    if geoid_res < region_res:
+        return False
+    return h3.h3_to_parent(geoid, region_res) == region
+
+
 def _map_to_station_ids(
     this_update: immutables.Map[str, immutables.Map[ChargerId, Currency]],
     sim: SimulationState,
@@ -234,11 +244,17 @@ def _map_to_station_ids(
     :param sim: the SimulationState provides h3 resolution and lookup tables
     :return: the price data organized by StationId
     """
-    updated = {}  # refactor using immutables.Map()?
-    for k in this_update.keys():
+    updated: Dict[StationId, immutables.Map[ChargerId, Currency]] = {}
+
+    def _merge(station_id: StationId, prices: immutables.Map[ChargerId, Currency]):
+        # several keys may name the same station in one window: merge per charger instead of
+        # letting one entry replace the other
+        updated[station_id] = updated.get(station_id, immutables.Map()).update(prices)
+
+    for k in sorted(this_update.keys()):
         if k in sim.stations:
             # k is a StationId; leave as is
-            updated.update({k: this_update[k]})
+            _merge(k, this_update[k])
         else:
             # k may be a geoid
             try:
@@ -256,12 +272,16 @@ def _map_to_station_ids(
                     station_id
                     for search_geoid in search_geoids
                     if sim.s_search.get(search_geoid)
-                    for station_id in sim.s_search[search_geoid]
+                    for station_id in sorted(sim.s_search[search_geoid])
+                    # a region finer than the search grid names only the stations inside it,
+                    # not every station of the enclosing search cell
+                    if res <= sim.sim_h3_search_resolution
+                    or _within_region(sim.stations[station_id].geoid, k, res)
                 )
 
                 # all of these station ids should get entries managers the provided geoid
                 for station_id in station_ids:
-                    updated.update({station_id: this_update[k]})
+                    _merge(station_id, this_update[k])
 
             except ValueError as e:
                 # todo: handle failure here
